@@ -78,6 +78,16 @@ pub(crate) fn remove_all<Fd: AsFd>(dirfd: Fd, name: &Path) -> Result<(), Error> 
         })?;
     }
 
+    // "." and ".." do not name an entry of dirfd. rmdir(2) and unlink(2) refuse
+    // them, but the slow path below would happily open them and empty the
+    // directory itself (or its parent!) before failing.
+    if name.as_os_str().as_bytes() == b"." || name.as_os_str().as_bytes() == b".." {
+        Err(ErrorImpl::InvalidArgument {
+            name: "path".into(),
+            description: "cannot remove '.' or '..'".into(),
+        })?;
+    }
+
     // Fast path -- try to remove it with unlink/rmdir.
     if remove_inode(dirfd, name).ignore_enoent().is_ok() {
         return Ok(());
